@@ -1,6 +1,8 @@
 package main
 
 import (
+	"time"
+	"sync"
 	"fmt"
 	"math/rand"
 	"strconv"
@@ -187,6 +189,15 @@ func c05GenCases(rng *rand.Rand, tier string) []Case {
 		"cfg 2", "ev 1 61 -", "ev " + M + " 62 -", "ev 1 61 -"}})
 	out = append(out, Case{ID: "wrap-redelivery-pp", Tags: []string{"boundary"}, Nontrivial: true, Ops: []string{
 		"cfg 2", "ev 1 61 -", "pp 0 0 nil " + M + ":62.-", "pp 2 0 nil 1:61.-"}})
+	// concurrent handling of the same events (gossip and push/pull at the same moment)
+	nConc := 4
+	if tier == "thorough" {
+		nConc = 60
+	}
+	for i := 0; i < nConc; i++ {
+		out = append(out, Case{ID: fmt.Sprintf("conc%d", i), Tags: []string{"concurrent"}, Nontrivial: true, Ops: []string{
+			"cfg 4096", fmt.Sprintf("conc %d %d %d", 4+rng.Intn(5), 1500+rng.Intn(1500), rng.Int63())}})
+	}
 	// exhaustive: every sequence of ≤ L events over a time palette × 2 items, N ∈ {1,2,3}
 	L := 3
 	if tier == "thorough" {
@@ -300,6 +311,84 @@ func c05ShowDeliveries(evs []serf.Event) string {
 	return strings.Join(items, ",")
 }
 
+// c05Conc: g goroutines deliver the SAME cnt events (increasing times from the current clock) at the same
+// moment, half of them by gossip and half by push/pull replay; every event must reach EventCh at most once.
+func c05Conc(n *evNode, g, cnt int, seed int64) string {
+	base := n.stat("event_time") + 1
+	msgs := make([][]byte, cnt)
+	var slots []*serf.VerifUserEvents
+	for i := 0; i < cnt; i++ {
+		name := fmt.Sprintf("c%d", i)
+		msgs[i], _ = serf.VerifEncodeUserEvent(base+uint64(i), name, nil, false)
+		slots = append(slots, &serf.VerifUserEvents{LTime: base + uint64(i), Events: []serf.VerifUserEvent{{Name: name}}})
+	}
+	var wg sync.WaitGroup
+	start := make(chan struct{})
+	done := make(chan struct{})
+	seen := map[string]int{}
+	total := 0
+	go func() { // consumer: keep EventCh from filling up
+		for {
+			select {
+			case e := <-n.ch:
+				if ue, ok := e.(serf.UserEvent); ok {
+					seen[fmt.Sprintf("%d/%s", uint64(ue.LTime), ue.Name)]++
+					total++
+				}
+			case <-done:
+				return
+			}
+		}
+	}()
+	for t := 0; t < g; t++ {
+		wg.Add(1)
+		go func(t int) {
+			defer wg.Done()
+			<-start
+			if t%2 == 0 {
+				for i := 0; i < cnt; i++ {
+					n.notifyMsg(msgs[i])
+				}
+			} else {
+				// chunks of 8 so that replays interleave with the gossip deliveries
+				for i := 0; i < cnt; i += 8 {
+					j := i + 8
+					if j > cnt {
+						j = cnt
+					}
+					b, _ := serf.VerifEncodePushPull(0, map[string]uint64{}, nil, 0, slots[i:j], 0)
+					n.mergeRemoteState(b, false)
+				}
+			}
+		}(t)
+	}
+	close(start)
+	wg.Wait()
+	// barrier: everything the handlers emitted has passed the pipeline once the barrier comes out
+	n.conf.EventCh <- barrierEvent{}
+	deadline := time.After(10 * time.Second)
+	for {
+		stop := false
+		select {
+		case <-deadline:
+			stop = true
+		default:
+			time.Sleep(5 * time.Millisecond)
+			// the consumer goroutine swallows the barrier too (it is not a UserEvent); wait until the channel is idle
+			if len(n.ch) == 0 {
+				stop = true
+			}
+		}
+		if stop {
+			break
+		}
+	}
+	time.Sleep(20 * time.Millisecond)
+	close(done)
+	_ = seed
+	return fmt.Sprintf("total=%d distinct=%d", total, len(seen))
+}
+
 func c05Exec(ops []string) []string {
 	var node *evNode
 	defer func() {
@@ -324,6 +413,11 @@ func c05Exec(ops []string) []string {
 			}
 			node = nd
 			outs = append(outs, "ok")
+		case len(f) == 4 && f[0] == "conc" && node != nil:
+			g, _ := strconv.Atoi(f[1])
+			cnt, _ := strconv.Atoi(f[2])
+			seed, _ := strconv.ParseInt(f[3], 10, 64)
+			outs = append(outs, c05Conc(node, g, cnt, seed))
 		case len(f) == 2 && f[0] == "ignore" && node != nil && (f[1] == "0" || f[1] == "1"):
 			node.s.VerifSetEventJoinIgnore(f[1] == "1")
 			outs = append(outs, "ok")
